@@ -558,7 +558,9 @@ def compare_pair(
             longest_block_positions = block_positions
             # TODO: extend to polyploid
             if ploidy == 2:
-                if hamming(phasing0[0], phasing1[0]) < hamming(phasing0[0], complement(phasing1[0])):
+                # the second haplotype itself: for heterozygous biallelic calls it is complement(phasing1[0]), and
+                # complement() raises KeyError on an allele of a multi-allelic call (e.g. 2|1)
+                if hamming(phasing0[0], phasing1[0]) < hamming(phasing0[0], phasing1[1]):
                     longest_block_agreement = [
                         1 * (p0 == p1) for p0, p1 in zip(phasing0[0], phasing1[0])
                     ]
